@@ -83,9 +83,8 @@ func runTwin(rt *rapid.T, o *twinOpts, col collectorLike) {
 		col.Case()
 		rt.Repeat(map[string]func(*rapid.T){"step": func(rt *rapid.T) {
 			a, _ := pw.DrawAction(rt, o.profile)
-			if rec, _ := pw.Apply(a); rec != nil {
-				scans = append(scans, rec)
-			}
+			pw.Apply(a)
+			scans = append(scans, pw.DrainRecs()...)
 		}})
 	})
 	if len(scans) == 0 {
@@ -165,7 +164,7 @@ func sameSeq(a, b []string) bool { return strings.Join(a, "\n") == strings.Join(
 
 func twinWeights() map[string]int {
 	return map[string]int{"scan": 12, "targetUtil": 10, "advance": 7, "addPods": 2, "clearNode": 2, "launch": 2, "cordon": 3, "taintExt": 4,
-		"removeTaint": 1, "annotate": 2, "schedule": 1, "finishPods": 1}
+		"removeTaint": 1, "annotate": 2, "schedule": 1, "finishPods": 1, "asgEdit": 2}
 }
 
 // ---------------------------------------------------------------- C12 / C11: another group changes
@@ -210,7 +209,7 @@ func TestC12Twin(t *testing.T) {
 	rapid.Check(t, func(rt *rapid.T) {
 		runTwin(rt, &twinOpts{prop: "C12", profile: p, choose: func(rt *rapid.T, pw *world.World, scans []*world.ScanRecord) *perturbation {
 			changed := rapid.IntRange(0, len(pw.Cfg.Groups)-1).Draw(rt, "changedGroup")
-			kind := rapid.SampledFrom([]string{"pods", "thresholds", "rates", "pretaint", "graces", "faults"}).Draw(rt, "perturbation")
+			kind := rapid.SampledFrom([]string{"pods", "thresholds", "rates", "pretaint", "graces", "faults", "outOfBounds"}).Draw(rt, "perturbation")
 			pt := &perturbation{label: fmt.Sprintf("group %d: %s", changed, kind), compare: otherGroupCompare("C12", "other-group-change", changed)}
 			switch kind {
 			case "pods": // a large extra pod for the changed group right after start-up
@@ -222,6 +221,19 @@ func TestC12Twin(t *testing.T) {
 						at++
 					}
 					return append(append(append([]world.Action{}, log[:at]...), extra), log[at:]...)
+				}
+			case "outOfBounds": // the changed group gets more nodes than its maximum: its scans fail non-fatally
+				extra := int(pw.Cfg.Groups[changed].ASGMax) + pw.Cfg.Groups[changed].Opts.MaxNodes + 2
+				if extra > 24 {
+					extra = 24
+				}
+				pt.log = func(log []world.Action) []world.Action {
+					at := 0
+					for at < len(log) && log[at].Op == "launch" {
+						at++
+					}
+					ins := world.Action{Op: "launch", Group: changed, N: extra, Ages: []int64{0}}
+					return append(append(append([]world.Action{}, log[:at]...), ins), log[at:]...)
 				}
 			case "faults": // every API call on the changed group's nodes fails during one drawn scan
 				var targets []string
